@@ -29,6 +29,9 @@ result objects the client keeps (`Model/C14R.lean`, `Session`):
                                   `keep` lines of the case)
     ask <k>                       everything result `k` can be asked (the line the query itself prints)
     ask <k> <v>                   `To(v)` / `PathTo(v)` of result `k` (a `*Paths` or `*ShortestPathTree`)
+    adjappend <v>                 the caller appends to the slice `Adj(v)` returned: nothing changes (`ROp.callerWrite`; the
+                                  harness also overwrites the edge list it passed to the constructor and every slice a
+                                  query returned as a copy, without a line of its own)
 
 `edge` lines and queries interleave freely: every query is answered on the object as it is at that point (the
 harness keeps the Go objects alive for the whole case, so caches that `AddEdge` fails to invalidate and
@@ -37,7 +40,8 @@ the weights scaled by 2^k (exactly) and divides what it reads back; the Model ke
 the lines are the same.
 
 `scc`, `mst`, `spt`, `sptto` additionally print `cert=<b>`: the Spec certificate evaluated on the Model's
-result (the harness prints `cert=true`, so a failing certificate is a difference).
+result (the harness prints `cert=true`, so a failing certificate is a difference); for `scc` and `mst` on graphs
+with more than 4096 vertices `cert=n/a` (`certLimit`).
 -/
 namespace AlgoVerif.C14.Driver
 open AlgoVerif AlgoVerif.C14
@@ -149,6 +153,14 @@ def parseOp (k : Kind) (f : List String) : Option Op :=
   | ["use", i] => (parseNat? i).map .use
   | _ => (parseQuery k f).map .query
 
+/-- The SCC and MST certificates of `Spec/C14.lean` cost (number of classes) × n steps (they were written to be
+proved sound, not to be fast): they are evaluated for graphs with at most 4096 vertices; above, the line says
+`cert=n/a` (the harness prints the same). -/
+def certLimit : Nat := 4096
+
+def certText (n : Nat) (cert : Unit → Bool) : String :=
+  if n ≤ certLimit then s!"cert={showBool (cert ())}" else "cert=n/a"
+
 /-- the output line of a query answered with `a` on the object `o` -/
 def showAnswer (o : GObj) (q : Query) (a : Answer) : Outcome String :=
   let g := o.g
@@ -160,7 +172,7 @@ def showAnswer (o : GObj) (q : Query) (a : Answer) : Outcome String :=
   | _, .orders o =>
     .ok s!"pre={showNatList o.preOrder.toList} post={showNatList o.postOrder.toList} prerank={showNatList o.preRank.toList} postrank={showNatList o.postRank.toList}"
   | .scc, .comps c =>
-    c.components.map fun comps => showComponents c comps ++ s!" cert={showBool (sccCertificate g c)}"
+    c.components.map fun comps => showComponents c comps ++ " " ++ certText g.n fun _ => sccCertificate g c
   | _, .comps c => c.components.map fun comps => showComponents c comps
   | _, .cycle (some cyc) => .ok (showNatList cyc)
   | _, .cycle none => .ok "none"
@@ -170,7 +182,7 @@ def showAnswer (o : GObj) (q : Query) (a : Answer) : Outcome String :=
     | _, _ => .ok "none"
   | _, .mst m =>
     .ok (s!"weight={m.weight} edges=[" ++ " ".intercalate (m.edges.map showEdgeU) ++
-      s!"] cert={showBool (mstCertificate g m)}")
+      "] " ++ certText g.n fun _ => mstCertificate g m)
   | .spt s, .spt t l =>
     (sequence l).map fun rs =>
       let answers := (List.range rs.length).zip rs
@@ -250,6 +262,10 @@ def runROp (s : Session) (f : List String) : String × Bool × Session :=
           let (l, dead) := outcomeLine (r.2.bind (showAnswer k.o (k.q.at sel)))
           (l, dead, r.1)
     | _, _ => ("bad-op", false, s)
+  | ["adjappend", v] =>
+    match parseInt? v with
+    | some _ => ("ok", false, (s.step .callerWrite).1)
+    | none => ("bad-op", false, s)
   | _ =>
     let (l, d, w') := runOp s.w f
     (l, d, { s with w := w' })
